@@ -203,6 +203,11 @@ func scenarios(tier string) []*vsched.Scenario {
 	if tier == "thorough" {
 		out = append(out, twoChangers([]string{"sub2", "sub4"}, []string{"sub3", "unsub0"}, 2))
 		out = append(out, concScenario(2, scripts[3], false, 2), concScenario(2, scripts[4], true, 2))
+		for _, sc := range scripts {
+			out = append(out, concScenario(1, sc, false, 4), concScenario(2, sc, false, 3))
+		}
+		out = append(out, concScenario(3, scripts[0], false, 2), concScenario(3, scripts[2], true, 2),
+			twoChangers([]string{"sub2", "unsub0"}, []string{"unsub1", "sub3"}, 3), twoChangers([]string{"unsub0"}, []string{"unsub1"}, 4))
 	}
 	return out
 }
